@@ -251,6 +251,12 @@ UNIT_RULE = {"multiply": lambda a, b: a * b, "divide": lambda a, b: a / b, "true
              "square": lambda a: a ** 2, "sqrt": lambda a: a ** Fraction(1, 2)}
 
 
+def _is_int(x):
+    if isinstance(x, RawV):
+        return getattr(x.dtype, "kind", None) in ("i", "u")
+    return isinstance(x, int) and not isinstance(x, bool)
+
+
 class UFunc(Model):
     """a numpy ufunc: dispatches to Array.__array_ufunc__ when an osyris object is among its operands (as numpy does), otherwise
     computes on raw values / derives the unit of unit quantities"""
@@ -305,10 +311,15 @@ class UFunc(Model):
             e = vals[1].as_poly()
             if not (e.is_const() and float(e.const_value()).is_integer()):
                 raise Unsupported("power with a non-integer exponent")
+            if _is_int(args[0]) and _is_int(args[1]) and int(e.const_value()) < 0:
+                raise Raised("ValueError", None, "Integers to negative integer powers are not allowed.")
             res = vals[0] ** int(e.const_value())
             dtype = "float64"
         elif name == "reciprocal":
-            res = rat(1) / vals[0]
+            if _is_int(args[0]):
+                res = ("integer-division 1 // x", vals[0])          # numpy: reciprocal of an integer array is integer division
+            else:
+                res = rat(1) / vals[0]
             dtype = "float64"
         elif name == "square":
             res = vals[0] * vals[0]
@@ -410,6 +421,13 @@ def stack_hooks(tree):
     for name in ("cumsum", "sum"):
         hk["ext"]["numpy." + name] = AFunc(name, tree, hk)
     hk["ext"]["numpy.issubdtype"] = issubdtype
+
+    def _const(value):
+        def make(shape, dtype=None, **k):
+            dn = getattr(dtype, "__name__", None) or (dtype.data[0] if isinstance(dtype, Marker) and dtype.data else None) or str(dtype)
+            return RawV(rat(value), "bool" if "bool" in str(dn) else ("int64" if "int" in str(dn) else "float64"), tuple(shape) if isinstance(shape, (tuple, list)) else (shape,))
+        return make
+    hk["ext"]["numpy.ones"], hk["ext"]["numpy.zeros"] = _const(1), _const(0)
     _contig = lambda x, *a, **k: x if not isinstance(x, RawV) or x.contiguous else RawV(x.r, x.dtype, x.shape)
     hk["ext"]["numpy.require"] = hk["ext"]["numpy.ascontiguousarray"] = _contig
     hk["ext"]["numpy.asarray"] = lambda v, *a, **k: v if isinstance(v, RawV) else RawV(rat(v), "float64" if isinstance(v, float) else "int64", ())
@@ -585,20 +603,38 @@ def check_array_stack(run, tree, only=None):
         ("a / 2", lambda t, h, a: binop(t, h, a, "__truediv__", 2.0), lambda pa: pa / 2),
         ("-a", lambda t, h, a: ModelEval(t, t.method(a._cls, "__neg__"), {}, h).invoke(t.method(a._cls, "__neg__"), [a], {}, None), lambda pa: -pa),
         ("a ** 2", lambda t, h, a: binop(t, h, a, "__pow__", 2), lambda pa: pa * pa),
+        ("2 / a", lambda t, h, a: binop(t, h, a, "__rtruediv__", 2.0), lambda pa: rat(2) / pa),
+        ("a ** 3", lambda t, h, a: binop(t, h, a, "__pow__", 3), lambda pa: pa * pa * pa),
+        ("a ** -1", lambda t, h, a: binop(t, h, a, "__pow__", -1), lambda pa: rat(1) / pa),
+        ("a ** -1.0", lambda t, h, a: binop(t, h, a, "__pow__", -1.0), lambda pa: rat(1) / pa),
+        ("a ** 1", lambda t, h, a: binop(t, h, a, "__pow__", 1), lambda pa: pa),
+        ("a ** 2.0", lambda t, h, a: binop(t, h, a, "__pow__", 2.0), lambda pa: pa * pa),
+        # integer data: numpy refuses integer ** negative integer, and computes integer ** -1.0 in floating point
+        ("a ** -1, int64 data", lambda t, h, a: binop(t, h, a, "__pow__", -1), "raises ValueError"),
+        ("a ** -1.0, int64 data", lambda t, h, a: binop(t, h, a, "__pow__", -1.0), lambda pa: rat(1) / pa),
+        ("a ** 2, int64 data", lambda t, h, a: binop(t, h, a, "__pow__", 2), lambda pa: pa * pa),
+        ("2 / a, int64 data", lambda t, h, a: binop(t, h, a, "__rtruediv__", 2), lambda pa: rat(2) / pa),
     ]
     for label, do, want in (extra if only is None else []):
         construct = "core/array.py::Array[%s]" % label
         try:
             hk = stack_hooks(tree)
-            a = arr(tree, hk, "A", "cm")
+            a = arr(tree, hk, "A", "cm", dtype="int64" if "int64" in label else "float64")
             pa = phys(a)
             try:
                 r = do(tree, hk, a)
-                got = phys(r)
-                ok = got == want(pa) and phys(a) == pa
-                detail = "physical value %r (required %r)" % (got, want(pa))
+                if isinstance(want, str):
+                    ok, detail = False, "returns %r (required: %s, as numpy does on the raw values)" % (r._attrs.get("_array") if isinstance(r, PyObj) else r, want)
+                else:
+                    v = r._attrs.get("_array") if isinstance(r, PyObj) else None
+                    if isinstance(v, RawV) and isinstance(v.r, tuple):
+                        ok, detail = False, "computed as %s (required the floating-point value %r)" % (v.r[0], want(pa))
+                    else:
+                        got = phys(r)
+                        ok = got == want(pa) and phys(a) == pa
+                        detail = "physical value %r (required %r)" % (got, want(pa))
             except (Raised, ProgramRaised) as e:
-                ok, detail = False, "raises %s" % e
+                ok, detail = (isinstance(want, str) and want == "raises " + getattr(e, "name", "")), "raises %s" % e
             run.ob(construct, ok, fi.where(), detail, "%s is not %s of the quantity a" % (label, label))
         except ERR as e:
             run.unresolved(construct, fi.where(), "cannot fold: %s" % e)
@@ -1153,3 +1189,283 @@ class _NullCtx(Model):
 
     def __exit__(self, *a):
         return False
+
+
+# =============================================================================== histories of Array operations (state, caches, aliasing)
+class _Ref:
+    """what an object must denote: physical value, dimension; `cmp`: a comparison result (kind, physical difference)"""
+
+    def __init__(self, value, dims, cmp=None):
+        self.value, self.dims, self.cmp = value, dims, cmp
+
+
+def _dims_add(a, b, sign=1):
+    d = dict(a)
+    for k, v in b.items():
+        d[k] = d.get(k, 0) + sign * v
+    return {k: v for k, v in d.items() if v}
+
+
+HIST_PURE = (("+", "__add__"), ("-", "__sub__"), ("*", "__mul__"), ("/", "__truediv__"), ("<", "__lt__"), ("==", "__eq__"), ("!=", "__ne__"),
+             ("<=", "__le__"), (">", "__gt__"), (">=", "__ge__"))
+HIST_INPLACE = (("+=", "__iadd__"), ("-=", "__isub__"), ("*=", "__imul__"), ("/=", "__itruediv__"))
+_CMP_KIND = {"<": "lt", "==": "eq", "!=": "ne", "<=": "le", ">": "gt", ">=": "ge"}
+
+
+def array_history_steps(level="quick", family="arith"):
+    """(probes, mutators): a probe is a pure operation whose result is checked; a mutator changes state between two probes"""
+    xs = ("a", "b")
+    ys = ("a", "b", "c", "q", "zero", "two") if level != "quick" else ("a", "b", "c", "q", "zero")
+    if family == "compare":
+        pure = tuple(p for p in HIST_PURE if p[0] in _CMP_KIND and (level != "quick" or p[0] in ("<", ">=", "==", "!=")))
+    else:
+        pure = tuple(p for p in HIST_PURE if p[0] not in ("<=", ">", ">=")) if level != "quick" else tuple(p for p in HIST_PURE if p[0] in ("+", "*", "/", "<", "=="))
+    probes = [("op", sym, x, y) for sym, _ in pure for x in xs for y in ys if not (sym == "/" and y == "zero")]
+    if family != "compare":
+        probes += [("to", "cm", "a", None), ("to", "m", "b", None), ("rdiv", "2/", "a", None), ("pow", "**2", "a", None)]
+    inpl = HIST_INPLACE if level != "quick" else tuple(p for p in HIST_INPLACE if p[0] in ("+=", "*=", "/="))
+    muts = [("edit", None, x, None) for x in ("a", "b", "q")] + [("op", sym, x, y) for sym, _ in inpl for x in xs for y in (("a", "b", "c", "q") if level != "quick" else ("b", "c", "q"))]
+    muts += [("setunit", "cm", "a", None)]
+    return probes, muts
+
+
+def check_array_history_space(run, tree, level="quick", family="arith"):
+    """Sequences probe; mutator; the same probe again - over Arrays a [m], b [cm], c [s], an array-valued Quantity q [cm], the python
+    numbers 0 and 2, the same object on both sides.  Reference semantics: every object denotes a physical value (exact rational over
+    symbols) and a dimension; a pure operation returns the operation on the quantities (or raises DimensionalityError exactly when a common
+    unit is needed and the dimensions differ) and changes nothing; x op= y changes x only; editing a buffer changes that object only.
+    After EVERY step every live object is compared with the reference - stale caches (a remembered conversion, a remembered unit
+    quantity), operands rescaled in place and identity short-cuts all surface as a disagreement."""
+    fi = tree.func("core/array.py::_binary_op")
+    run.analysed(fi)
+    run.analysed(tree.method(tree.cls(ARRAY_Q), "to"))
+    probes, muts = array_history_steps(level, family)
+    DIMERR = "DimensionalityError"
+    failures = {}
+    nseq = [0]
+
+    def fresh():
+        hk = stack_hooks(tree)
+        objs = {"a": arr(tree, hk, "A", "m"), "b": arr(tree, hk, "B", "cm"), "c": arr(tree, hk, "C", "s"), "q": QQ(RawV(Poly.sym("Q")), UU.parse("cm")), "zero": 0, "two": 2.0}
+        ref = {n: _Ref(ref_of(o)[0], ref_of(o)[1]) for n, o in objs.items()}
+        return hk, objs, ref
+
+    def ref_of(o):
+        if isinstance(o, PyObj):
+            return phys(o), o._attrs["_unit"].dims()
+        if isinstance(o, QQ):
+            return o.magnitude.r * o.units.scale(), o.units.dims()
+        return rat(o), {}
+
+    def denotes(o):
+        if isinstance(o, PyObj):
+            v = o._attrs.get("_array")
+            if isinstance(v, RawV) and isinstance(v.r, tuple):
+                return ("cmp", v.r, o._attrs.get("_unit"))
+            return phys(o), o._attrs["_unit"].dims()
+        return ref_of(o)
+
+    def check_all(objs, ref, where, problems):
+        for n, o in objs.items():
+            try:
+                got = denotes(o)
+            except ERR as e:
+                problems.append("%s: %s is no longer a quantity (%s)" % (where, n, e))
+                continue
+            r = ref[n]
+            if r.cmp is not None:
+                continue
+            if got[0] == "cmp" or not (got[0] == r.value) or got[1] != r.dims:
+                problems.append("%s: %s denotes %r %r (required %r %r)" % (where, n, got[0], got[1], r.value, r.dims))
+
+    def expected(step, ref):
+        kind, sym, x, y = step
+        rx = ref[x]
+        if kind == "to":
+            if UU.parse(sym).dims() != rx.dims:
+                return DIMERR, None
+            return _Ref(rx.value, rx.dims), None
+        if kind == "rdiv":
+            return _Ref(rat(2) / rx.value, _dims_add({}, rx.dims, -1)), None
+        if kind == "pow":
+            return _Ref(rx.value * rx.value, _dims_add(rx.dims, rx.dims)), None
+        ry = ref[y]
+        base = sym.rstrip("=") if sym not in _CMP_KIND else sym
+        if base in ("+", "-"):
+            if rx.dims != ry.dims:
+                return DIMERR, None
+            return _Ref(rx.value + ry.value if base == "+" else rx.value - ry.value, rx.dims), None
+        if base == "*":
+            return _Ref(rx.value * ry.value, _dims_add(rx.dims, ry.dims)), None
+        if base == "/":
+            return _Ref(rx.value / ry.value, _dims_add(rx.dims, ry.dims, -1)), None
+        if rx.dims != ry.dims:
+            return DIMERR, None
+        return _Ref(None, {}, cmp=(_CMP_KIND[sym], rx.value - ry.value)), None
+
+    def run_step(hk, objs, ref, step, tag, problems):
+        kind, sym, x, y = step
+        label = "%s %s %s" % (x, sym, y) if kind == "op" else {"edit": "edit the buffer of %s" % x, "to": "%s.to(%s)" % (x, sym), "rdiv": "2 / %s" % x, "pow": "%s ** 2" % x, "setunit": "%s.unit = %s" % (x, sym)}[kind]
+        where = "%s [%s]" % (tag, label)
+        ox = objs[x]
+        if kind == "edit":
+            new = rat(Poly.sym("E%d" % len(ref)))
+            if isinstance(ox, QQ):
+                ox.magnitude.r = new
+                ref[x] = _Ref(new * ox.units.scale(), ref[x].dims)
+            else:
+                ox._attrs["_array"].r = new
+                ref[x] = _Ref(new * ox._attrs["_unit"].scale(), ref[x].dims)
+            for n, o in objs.items():          # objects that ARE x follow it
+                if o is ox and n != x:
+                    ref[n] = ref[x]
+            check_all(objs, ref, where, problems)
+            return
+        if kind == "setunit":
+            m = tree.method(ox._cls, "__init__")
+            ModelEval(tree, m, {}, hk).obj_setattr(ox, "unit", sym)
+            u = UU.parse(sym)
+            ref[x] = _Ref(ox._attrs["_array"].r * u.scale(), u.dims())
+            for n, o in objs.items():
+                if o is ox and n != x:
+                    ref[n] = ref[x]
+            check_all(objs, ref, where, problems)
+            return
+        want, _ = expected(step, ref)
+        try:
+            if kind == "op":
+                dunder = dict(HIST_PURE + HIST_INPLACE)[sym]
+                r = binop(tree, hk, ox, dunder, objs[y])
+                if isinstance(r, Marker) and r.kind == "builtin" and r.data and r.data[0] == "NotImplemented":
+                    raise Raised("TypeError", None, "unsupported operand")
+            elif kind == "to":
+                m = tree.method(ox._cls, "to")
+                r = ModelEval(tree, m, {}, hk).invoke(m, [ox, sym], {}, None)
+            elif kind == "rdiv":
+                r = binop(tree, hk, ox, "__rtruediv__", 2.0)
+            else:
+                r = binop(tree, hk, ox, "__pow__", 2)
+        except (Raised, ProgramRaised) as e:
+            nm = getattr(e, "name", str(e))
+            if want != DIMERR or nm != DIMERR:
+                problems.append("%s: raises %s (required %s)" % (where, nm, "DimensionalityError" if want == DIMERR else "a result"))
+            check_all(objs, ref, where, problems)
+            return
+        if want == DIMERR:
+            problems.append("%s: returns a result for operands of different dimensions (required DimensionalityError)" % where)
+            return
+        inplace = kind == "op" and sym.endswith("=") and sym not in _CMP_KIND
+        if inplace:
+            if r is not ox:
+                problems.append("%s: x op= y returns another object" % where)
+            ref[x] = want
+            for n, o in objs.items():
+                if o is ox and n != x:
+                    ref[n] = want
+        else:
+            name = "r%d" % len(objs)
+            known = next((n for n, o in objs.items() if o is r), None)
+            if known is not None:
+                # the operation handed back an object it was given (to() into the unit it already has): it must already denote the result
+                if want.cmp is None and not (ref[known].value == want.value and ref[known].dims == want.dims):
+                    problems.append("%s: returns the operand %s, which denotes something else" % (where, known))
+            else:
+                objs[name], ref[name] = r, want
+                if want.cmp is not None:
+                    got = denotes(r)
+                    k_l = objs[x]._attrs["_unit"].scale()
+                    ok = got[0] == "cmp" and got[1][0] == want.cmp[0] and got[1][1] * k_l == want.cmp[1] and isinstance(got[2], UU) and not got[2].mono
+                    if not ok:
+                        problems.append("%s: compares %r (required %s of the physical difference %r, dimensionless)" % (where, got[1] if got[0] == "cmp" else got, want.cmp[0], want.cmp[1]))
+        check_all(objs, ref, where, problems)
+
+    def sequence(steps):
+        nseq[0] += 1
+        hk, objs, ref = fresh()
+        problems = []
+        for i, st in enumerate(steps):
+            run_step(hk, objs, ref, st, "step %d" % (i + 1), problems)
+            if problems:
+                break
+        return problems
+
+    def fmt(st):
+        kind, sym, x, y = st
+        return "%s %s %s" % (x, sym, y) if kind == "op" else {"edit": "edit(%s)" % x, "to": "%s.to(%s)" % (x, sym), "rdiv": "2/%s" % x, "pow": "%s**2" % x, "setunit": "%s.unit=%s" % (x, sym)}[kind]
+
+    unresolved = {}
+    for p in probes:
+        for m in [None] + muts:
+            steps = (p,) if m is None else (p, m, p)
+            key = fmt(p) if m is None else fmt(p) + "; " + fmt(m) + "; " + fmt(p)
+            try:
+                pr = sequence(steps)
+                if pr:
+                    failures[key] = pr[0]
+            except ERR as e:
+                unresolved[key] = str(e)
+    # one obligation per probe operator (lists the failing sequences)
+    groups = {}
+    for p in probes:
+        groups.setdefault(p[1] if p[0] == "op" else fmt(p), [])
+    for key in list(failures) + list(unresolved):
+        first = key.split(";")[0].split()
+        g = first[1] if len(first) == 3 else key.split(";")[0]
+        groups.setdefault(g, []).append(key)
+    for g, keys in groups.items():
+        construct = "core/array.py::Array[histories: x %s y; a mutator; the same again]" % g if len(g) <= 2 else "core/array.py::Array[histories: %s; a mutator; the same again]" % g
+        bad = [k for k in keys if k in failures]
+        unk = [k for k in keys if k in unresolved]
+        if unk and not bad:
+            run.unresolved(construct, fi.where(), "cannot fold %d sequence(s), e.g. [%s]: %s" % (len(unk), unk[0], unresolved[unk[0]]))
+            continue
+        run.ob(construct, not bad, fi.where(), ("%d sequence(s) disagree with the quantity algebra, e.g. [%s]: %s" % (len(bad), bad[0], failures[bad[0]])) if bad else
+               "every sequence agrees with the algebra of physical quantities after every step",
+               "a result depends on an earlier call (a remembered conversion or unit), an operand is rescaled or relabelled by the operation, "
+               "a python 0 is given the unit of the other operand, x == x is answered without looking at the values")
+    return nseq[0]
+
+
+def _np_any(x, *a, **k):
+    """np.any of an element-wise comparison of symbolic buffers: decided when the physical difference is identically zero (no element
+    differs) or a non-zero expression (the generic buffer: some element differs)"""
+    if isinstance(x, RawV) and isinstance(x.r, tuple) and x.r[0] in ("ne", "eq"):
+        zero = x.r[1] == rat(0)
+        return (not zero) if x.r[0] == "ne" else zero
+    raise Unsupported("np.any of %r" % (x,))
+
+
+def check_group_equality_history(run, tree):
+    """Datagroup.__eq__ end to end on members held in DIFFERENT units: equal content compares equal, and after the buffer of a member is
+    edited in place (dg['pos'].values[i] = x, dg[0:1]['pos'] *= 2 through a view) the next comparison sees the edit - in both orientations"""
+    from .core_models import DG_Q
+    ci = tree.cls(DG_Q)
+    eq = tree.method(ci, "__eq__")
+    run.analysed(eq)
+    A = rat(Poly.sym("A"))
+    km, kcm = rat(Poly.sym("k_m")), rat(Poly.sym("k_cm"))
+    for orient in ("g1 == g2", "g2 == g1"):
+        construct = DG_Q + ".__eq__[history: members in m and cm, %s; edit a buffer; compare again]" % orient
+        try:
+            hk = stack_hooks(tree)
+            hk["ext"]["numpy.any"] = _np_any
+            ev = ModelEval(tree, tree.method(ci, "__init__"), {}, hk)
+            p1 = arr(tree, hk, "A", "m")
+            p2 = arr(tree, hk, RawV(A * km / kcm), "cm")         # the same lengths written in cm
+            g1 = ev.instantiate(ci, [], {"pos": p1}, None)
+            g2 = ev.instantiate(ci, [], {"pos": p2}, None)
+            l, r = (g1, g2) if orient.startswith("g1") else (g2, g1)
+            first = ModelEval(tree, eq, {}, hk).invoke(eq, [l, r], {}, None)
+            second = ModelEval(tree, eq, {}, hk).invoke(eq, [l, r], {}, None)
+            p2._attrs["_array"].r = rat(Poly.sym("E"))             # an in-place edit through the numpy buffer
+            third = ModelEval(tree, eq, {}, hk).invoke(eq, [l, r], {}, None)
+            p2._attrs["_array"].r = A * km / kcm
+            p1._attrs["_array"].r = rat(Poly.sym("F"))
+            fourth = ModelEval(tree, eq, {}, hk).invoke(eq, [l, r], {}, None)
+            ok = first is True and second is True and third is False and fourth is False
+            run.ob(construct, ok, eq.where(), "equal content: %r, again: %r; after editing the right group's buffer: %r; after editing the left group's buffer: %r (required True, True, False, False)" % (first, second, third, fourth),
+                   "two groups holding the same quantity in different units: after dg2['pos'].values[0] = x they still compare equal (a remembered unit conversion of the operand)")
+        except (Raised, ProgramRaised) as e:
+            run.violated(construct, eq.where(), "raises %s" % e, "Datagroup equality across units")
+        except ERR as e:
+            run.unresolved(construct, eq.where(), "cannot fold: %s" % e)
